@@ -144,6 +144,14 @@ func (tc *typechecker) checkIdentifier(ident *ast.Identifier, used bool) *typeIn
 		tc.compilation.iteaToUsingCheck[ident.Name] = uc
 	}
 
+	// A constant gets a type info of its own for every use: setValue and the
+	// emitter record in it the type the use is converted to, and the type info
+	// of a predeclared constant (true, false) is shared by all the builds.
+	if ti.IsConstant() {
+		c := *ti
+		ti = &c
+	}
+
 	tc.compilation.typeInfos[ident] = ti
 	return ti
 }
